@@ -17,7 +17,7 @@ import sys
 import tempfile
 from urllib.parse import unquote
 
-from ..monitors.reach import Reach
+from ..monitors.reach import Reach, opt
 
 ID = "C14"
 RULE = (
@@ -98,9 +98,9 @@ def run(shard, rec, rng):
     from werkzeug.middleware import shared_data as SD
     from werkzeug.test import create_environ, run_wsgi_app
 
-    reach = Reach(rec, {"safe_join": security.safe_join, "send_from_directory": utils.send_from_directory, "secure_filename": utils.secure_filename,
-                        "SharedDataMiddleware.__call__": SD.SharedDataMiddleware.__call__, "SharedDataMiddleware.get_directory_loader": SD.SharedDataMiddleware.get_directory_loader,
-                        "SharedDataMiddleware.get_package_loader": SD.SharedDataMiddleware.get_package_loader, "send_file": utils.send_file})
+    reach = Reach(rec, {"safe_join": opt(lambda: security.safe_join), "send_from_directory": opt(lambda: utils.send_from_directory), "secure_filename": opt(lambda: utils.secure_filename),
+                        "SharedDataMiddleware.__call__": opt(lambda: SD.SharedDataMiddleware.__call__), "SharedDataMiddleware.get_directory_loader": opt(lambda: SD.SharedDataMiddleware.get_directory_loader),
+                        "SharedDataMiddleware.get_package_loader": opt(lambda: SD.SharedDataMiddleware.get_package_loader), "send_file": opt(lambda: utils.send_file)})
     cfg = TIERS[shard["_tier"]]
     idx, of = shard["index"], shard["of"]
     safe_join = security.safe_join
